@@ -120,6 +120,7 @@ type tcase struct {
 	value *big.Int
 	data  []byte
 	gas   uint64
+	probe *probeSpec // optional annotation: stack-boundary probe (see probe.go)
 }
 
 func bi(s Sx) *big.Int { return AsBig(s) }
@@ -151,6 +152,9 @@ func parseCase(c Sx) tcase {
 	} else {
 		t.value, t.data, t.gas = bi(tx[0]), AsBytes(tx[1]), bi(tx[2]).Uint64()
 	}
+	if len(l) > 5 {
+		t.probe = parseProbe(l[5])
+	}
 	if t.gas == 0 || t.gas > 1<<36 {
 		// runtime.setDefaults turns a zero GasLimit into MaxUint64; huge limits make runs unbounded
 		panic("hxlib: gas limit outside the generated range [1, 2^36]")
@@ -181,6 +185,9 @@ func (t tcase) sx() Sx {
 		tx = L(Big(t.to), Big(t.value), B(t.data), U(t.gas))
 	} else {
 		tx = L(Big(t.value), B(t.data), U(t.gas))
+	}
+	if t.probe != nil {
+		return L(I(int64(t.kind)), I(int64(t.fork)), ev, pre, tx, t.probe.sx())
 	}
 	return L(I(int64(t.kind)), I(int64(t.fork)), ev, pre, tx)
 }
@@ -284,6 +291,8 @@ type runOut struct {
 	ops      map[byte]bool
 	panicked string
 	budget   *vm.GasBudget // direct mode: what evm.Call / evm.Create returned
+	exitErr  map[int]error // error of the last frame that exited at each tracer depth
+	exits    int
 	overrun  bool          // step budget exceeded (only shrink candidates do that)
 }
 
@@ -297,7 +306,10 @@ type budgetExceeded struct{}
 // the gas spent so far in this frame can have paid for.
 // With direct = true the body of runtime.Call / runtime.Create is replayed on runtime.NewEnv so that
 // the whole GasBudget of the outermost frame (not only its ExecutionGas) can be inspected.
-func executeMode(t tcase, level int, direct bool) (out runOut) {
+func executeMode(t tcase, level int, direct bool, eip8024 bool) (out runOut) {
+	out.exitErr = map[int]error{}
+	pend := map[int]uint64{} // account-creation state gas charged by the instruction in progress, per open frame
+	creationGas := uint64(params.AccountCreationSize * params.CostPerStateByte)
 	out.addrs = map[common.Address]bool{}
 	out.keys = map[common.Address]map[common.Hash]bool{}
 	out.ops = map[byte]bool{}
@@ -326,6 +338,9 @@ func executeMode(t tcase, level int, direct bool) (out runOut) {
 			}
 			given := enterGas[len(enterGas)-1]
 			enterGas = enterGas[:len(enterGas)-1]
+			out.exitErr[depth] = err
+			out.exits++
+			delete(pend, len(enterGas)+1)
 			if gasUsed > given {
 				bad(fmt.Sprintf("frame at depth %d used %d gas > %d given", depth, gasUsed, given))
 			}
@@ -339,6 +354,19 @@ func executeMode(t tcase, level int, direct bool) (out runOut) {
 				}
 				if gasUsed != given {
 					bad(fmt.Sprintf("exceptional halt (class %d) at depth %d returned %d of %d gas", cl, depth, given-gasUsed, given))
+				}
+			}
+		},
+		OnGasChangeV2: func(old, new tracing.Gas, reason tracing.GasChangeReason) {
+			switch reason {
+			case tracing.GasChangeAccountCreation: // CREATE / CREATE2 destination (charged inside the opcode)
+				pend[len(enterGas)] += creationGas
+			case tracing.GasChangeRefundAccountCreation:
+				if pend[len(enterGas)] < creationGas {
+					bad(fmt.Sprintf("account-creation state gas refilled (%d -> %d state, %d -> %d execution) to a frame whose current instruction was not charged for one (open frames %d)",
+						old.State, new.State, old.Execution, new.Execution, len(enterGas)))
+				} else {
+					pend[len(enterGas)] -= creationGas
 				}
 			}
 		},
@@ -372,6 +400,15 @@ func executeMode(t tcase, level int, direct bool) (out runOut) {
 				bad(fmt.Sprintf("frame gas %d exceeds the gas it was given %d (depth %d pc %d)", gas, s0, depth, pc))
 			} else if memFee(uint64(ml)/32).Cmp(new(big.Int).SetUint64(s0-gas)) > 0 {
 				bad(fmt.Sprintf("memory of %d bytes not paid for: fee %v > gas spent in frame %d (depth %d pc %d)", ml, memFee(uint64(ml)/32), s0-gas, depth, pc))
+			}
+			// EIP-8037: the only state gas an instruction may get refilled is the account-creation
+			// charge it paid itself. A CALL pays it iff it transfers value to an empty account.
+			pend[len(enterGas)] = 0
+			if level >= 14 && vm.OpCode(op) == vm.CALL && sl >= 7 && err == nil {
+				sd := scope.StackData()
+				if !sd[sl-3].IsZero() && st.Empty(common.Address(sd[sl-2].Bytes20())) {
+					pend[len(enterGas)] = creationGas
+				}
 			}
 			// gascosts.go accumulators: in every frame, at every instruction,
 			// ExecutionGas + UsedExecutionGas + Spilled = execution gas the frame was given
@@ -413,9 +450,13 @@ func executeMode(t tcase, level int, direct bool) (out runOut) {
 		Value:       t.value,
 		State:       st,
 		EVMConfig:   vm.Config{Tracer: hooks},
+
 		GetHashFn: func(n uint64) common.Hash {
 			return crypto.Keccak256Hash(common.BigToHash(new(big.Int).SetUint64(n)).Bytes())
 		},
+	}
+	if eip8024 {
+		cfg.EVMConfig.ExtraEips = []int{8024}
 	}
 	defer func() {
 		if e := recover(); e != nil {
@@ -455,7 +496,7 @@ func executeMode(t tcase, level int, direct bool) (out runOut) {
 	return
 }
 
-func execute(t tcase, level int) runOut { return executeMode(t, level, false) }
+func execute(t tcase, level int) runOut { return executeMode(t, level, false, false) }
 
 // observables of one run, in the model's canonical form
 func observe(t tcase, o runOut) Sx {
